@@ -36,3 +36,16 @@ claim("C04",
       "and after every event the reported children/pending/waiting/bound sets must partition the members and mean what they say.",
       "Trusted: TLC, the package's NewManagerForTest fixture, a fake framework handle serving the harness's waiting-pod table. Annotation gangs only; network topology / preemption out of scope; sub-call interleavings only in the model.",
       "DESIGN.md 5 C04")
+claim("C09",
+      "TLA+ spec Reclaim (bound / cap / monotonicity / stale / zone predicates + transcription of the batch and mid formulas): TLC exhaustive MC of the transcription; real Plugin.Calculate outputs for enumerated + seeded random inputs and raise-one-input chains validated by TLC against the predicates (trace validation)",
+      "TLC checks on the model that the transcribed batch/mid formulas satisfy every bound of the statement and are monotone over a small exhaustive input domain; every output of the real batchresource/midresource Plugin.Calculate on "
+      "enumerated tables and random inputs (policies usage/request/maxUsageRequest, pods with and without metrics, dangling metrics, host apps, NUMA zones, stale metrics) is checked by TLC against the property-level predicates, "
+      "and each raise step of a consumption input must not raise a published amount.",
+      "Trusted: TLC, fake clock/client of the package tests. Magnitudes < 2^31 (no 64-bit scale); safety-margin float product tolerance of 1 unit only where the exact product is an integer and the ratio not dyadic.",
+      "DESIGN.md 5 C09")
+claim("C12",
+      "TLA+ spec CgroupTree (Write/Call/Done with hierarchy validity V after every write, terminal T and N; transcriptions of LeveledUpdateBatch and applyCPUSetWithNonePolicy): TLC exhaustive MC over all trees <= 4 nodes and hierarchy-valid old/target pairs; TLC-generated and random rewrites executed on the real executor under a temp cgroup root with a snapshot after every updater call, validated by TLC (trace validation)",
+      "TLC shows on the transcribed two-pass algorithm that every prefix of the write sequence keeps child within parent and that on completion every file holds its target and unchanged files are not written, for all trees up to 4 nodes, "
+      "cpusets over 4 CPUs and limits incl. Unlimited, any cache subset, chained rewrites. The real LeveledUpdateBatch and applyCPUSetWithNonePolicy are run on the same cases (both cgroup versions, five files) and every snapshot is checked by TLC.",
+      "Trusted: TLC, system.NewFileTestUtil temp cgroup root (cannot refuse a write as a kernel would), the harness's write detector. One hierarchical file per rewrite; depth <= 3.",
+      "DESIGN.md 5 C12")
